@@ -122,6 +122,8 @@ def diff_tables(live):
 
 def tables(overrides=None):
     """(service table, node table) = the pin with optional cell overrides {'service': {T: {f: v}}, 'node': {...}}."""
+    if not overrides:
+        return PIN_SERVICE, PIN_NODE          # callers never modify the tables
     s, n = copy.deepcopy(PIN_SERVICE), copy.deepcopy(PIN_NODE)
     for t, cells in ((overrides or {}).get('service') or {}).items():
         s[t].update(cells)
